@@ -169,7 +169,10 @@ type Explorer struct {
 	// counted only by shard 0.
 	SplitDepth int
 	Stats      *Stats
-	seen       map[uint64]Bounds
+	// OnStart is called with the prefix of every execution before it runs
+	// (used by the harness watchdog to name a runaway execution).
+	OnStart func(prefix []int)
+	seen    map[uint64]Bounds
 	unit       int
 }
 
@@ -201,6 +204,9 @@ func (e *Explorer) Explore() {
 			return
 		}
 		r := &Run{Prefix: nd.prefix}
+		if e.OnStart != nil {
+			e.OnStart(nd.prefix)
+		}
 		e.Body(r)
 		counted := nd.owned || e.Shard == 0
 		if r.Diverged != "" {
